@@ -45,6 +45,16 @@ func nonOK(p *Prog) map[string]string {
 		if rr.Err != "" {
 			out["ERROR:"+rn] = rr.Err
 		}
+		// the vacuity floor is part of the verdict too: a rule that lost its sites makes the check fail
+		nobl := 0
+		for _, o := range rr.Obligs {
+			if o.Status != Info {
+				nobl++
+			}
+		}
+		if nobl < rules[rn].Floor {
+			out["ERROR:"+rn+":floor"] = fmt.Sprintf("%d obligations < floor %d", nobl, rules[rn].Floor)
+		}
 		for _, o := range rr.Obligs {
 			if o.Status == Violation || o.Status == Unmodelled {
 				out[o.Key] = string(o.Status)
